@@ -207,7 +207,7 @@ def _build_smt():
 # ------------------------------------------------------------------------------------------
 # Symx: real CommandManager.execute
 
-ALPHA_Q = ["a", " ", "\t", "'", '"', "\\", "n", "t", "x", "2", "7", "#", "\u00e9"]
+ALPHA_Q = ["a", " ", "\t", "'", '"', "\\", "n", "t", "x", "2", "7", "#", "\u00e9", "\x0c", "\r"]  # incl. form feed and CR (white space other than space/tab/LF)
 ALPHA_T = ALPHA_Q + ["\n", "u", "N", "{", "\U0001f600"]
 
 
@@ -223,7 +223,11 @@ def h_single(X, N, alpha):
     try:
         got = _deliver(" " + q)
     except exceptions.CommandError as e:
-        X.fail(key if esc else "C45/execute/command-error", f"execute('t.one ' + {q!r}) for the argument {s!r} raises CommandError: {e}", s=s)
+        k = key if esc else "C45/execute/command-error"
+        if not esc and s and s.isspace() and q == s:
+            # an argument made only of white space that quote() leaves unquoted (form feed, vertical tab, ...) is taken for a separator
+            k = "C45/execute/unquoted-whitespace-only-argument-lost"
+        X.fail(k, f"execute('t.one ' + {q!r}) for the argument {s!r} raises CommandError: {e}", s=s)
     X.reach("delivered")
     if "\\" in s:
         X.reach("backslash")
